@@ -161,6 +161,20 @@ def run_shard(spec, res):
                 if eb is not ea:
                     res.violation({"kind": "pickle", "what": "unpickled-expression-is-not-the-same-object", "family": fam, "case": d, "annotation": "identity-hashed user annotation", "observed": [repr(ea)[:150], repr(eb)[:150], ea._hash, eb._hash]})
                     continue
+                if any(isinstance(a_, _PlainUserAnnotation) for a_ in ea.annotations):
+                    # ... and when the original is gone: what comes back carries a *new* annotation object; building the
+                    # same expression again around that object must give the unpickled expression itself
+                    blob2 = pickle.dumps(ea, -1)
+                    keep[:] = [k_ for k_ in keep if k_ is not ea]
+                    del ea, eb
+                    gc.collect()
+                    ec = pickle.loads(blob2)
+                    again = ec.remove_annotations(ec.annotations).annotate(*ec.annotations)
+                    res.count("expr_rebuilt_around_unpickled_annotation")
+                    if again is not ec:
+                        res.violation({"kind": "pickle", "what": "expression-rebuilt-around-the-unpickled-annotation-is-another-object", "family": fam, "case": d, "observed": [repr(ec)[:150], ec._hash, again._hash]})
+                        continue
+                    keep.append(ec)
             if e2 is not e:
                 res.violation({"kind": "pickle", "what": "unpickled-expression-is-not-the-same-object", "family": fam, "case": d, "observed": [repr(e)[:150], repr(e2)[:150], e._hash, e2._hash]})
                 continue
